@@ -2,7 +2,7 @@
 """Independent confirmation of a seeded change: in a scratch worktree of /repo (removed afterwards)
  (1) the patch applies, (2) the unedited suite builds and passes with it, (3) the demonstration passes on the
  clean tree and fails with the patch (tried under several -std / compilers).  Prints a JSON summary.
-usage: tools/validate_seed.py <dir with patch.diff and demo.cpp>"""
+usage: tools/validate_seed.py <dir with patch.diff and demo.cpp> ['<compiler> <flags>' ...]   (extra demo configurations, tried first)"""
 import sys, os, subprocess, tempfile, shutil, json
 def run(cmd, **kw): return subprocess.run(cmd, capture_output=True, text=True, **kw)
 def main():
@@ -10,7 +10,8 @@ def main():
     d = tempfile.mkdtemp(prefix='seedval', dir='/tmp'); wt = os.path.join(d, 'wt')
     try:
         run(['git', '-C', '/repo', 'worktree', 'add', '--detach', wt, 'HEAD'])
-        cfgs = [('g++', '-std=c++20'), ('g++', '-std=c++17'), ('g++', '-std=c++23'), ('clang++-14', '-std=c++20'), ('g++', '-std=c++17 -O2 -DNDEBUG')]
+        extra = [tuple(x.split(' ', 1)) for x in sys.argv[2:]]
+        cfgs = extra + [('g++', '-std=c++20'), ('g++', '-std=c++17'), ('g++', '-std=c++23'), ('clang++-14', '-std=c++20'), ('g++', '-std=c++17 -O2 -DNDEBUG')]
         def demo(tag):
             res = {}
             for comp, flags in cfgs:
